@@ -133,6 +133,43 @@ func genQuery(r *lib.RNG, height int, hot []int) Q {
 		a, b = b, a
 	}
 	q.From, q.To = a, b
+	// how the query is asked
+	if r.Chance(1, 3) {
+		q.Rpc = true
+	}
+	if r.Chance(1, 4) {
+		for i := 1 + r.Intn(3); i > 0; i-- {
+			if r.Chance(1, 4) {
+				q.Pre = append(q.Pre, nil)
+			} else {
+				q.Pre = append(q.Pre, genPlan(r))
+			}
+		}
+	}
+	switch r.Intn(8) {
+	case 0:
+		q.ToTag = "pre_confirmed"
+	case 1:
+		q.ToTag = "latest"
+	case 2:
+		if q.Rpc && q.To <= head {
+			q.ToTag = "hash"
+		}
+	}
+	switch r.Intn(12) {
+	case 0:
+		q.FromTag = "latest"
+	case 1:
+		q.FromTag = "pre_confirmed"
+		q.ToTag = "pre_confirmed"
+	case 2:
+		if q.Rpc && q.From <= head {
+			q.FromTag = "hash"
+		}
+	}
+	if len(q.Pre) > 0 && r.Chance(1, 2) {
+		q.ToTag = "pre_confirmed"
+	}
 	// keep the number of pages bounded: an unconstrained filter makes every block a candidate
 	if q.F.broad() && q.To-q.From > 60 {
 		if q.Limit > 0 && q.Limit < 6 {
@@ -153,8 +190,49 @@ func genQuery(r *lib.RNG, height int, hot []int) Q {
 // ---------------------------------------------------------------------------------------------
 
 type Base struct {
-	W   [2]*World // [0]: legacy state backend, [1]: new state backend
-	Hot []int
+	W    [2]*World // [0]: legacy state backend, [1]: new state backend
+	Hot  []int
+	Pool *DrvPool // model drivers pre-loaded with this base's chain
+}
+
+// extend builds a second base on top of b that ends shortly before the SECOND window boundary
+// (thorough tier): histories from it have a completed, persisted window behind them.
+func (b *Base) extend(r *lib.RNG, res *lib.Result) *Base {
+	f := &Base{Hot: append([]int{}, b.Hot...)}
+	rb := r.Fork(78)
+	type seg struct {
+		n    int
+		plan Plan
+	}
+	var segs []seg
+	at := baseHeight
+	target := 2*W - 10
+	marks := []int{W - 1, W, W + 1, W + 100, W + W/2, target - 2}
+	for _, m := range marks {
+		if m > at {
+			segs = append(segs, seg{m - at, nil})
+		}
+		segs = append(segs, seg{1, genPlan(rb)})
+		f.Hot = append(f.Hot, m)
+		at = m + 1
+	}
+	segs = append(segs, seg{target - at, nil})
+	for i := range b.W {
+		w := b.W[i].fork("base2", rb.Fork(uint64(i)), uint64(40+i), nil, Variant{}, false)
+		w.quiet = true
+		for _, sg := range segs {
+			if sg.n <= 0 {
+				continue
+			}
+			w.do(Op{Kind: "store", Plan: sg.plan, N: sg.n})
+		}
+		if len(w.Chain) != target {
+			res.Note("base2: height %d, wanted %d", len(w.Chain), target)
+		}
+		f.W[i] = w
+	}
+	f.Hot = append(f.Hot, 2*W-1, 2*W, 2*W+1)
+	return f
 }
 
 const baseHeight = W - 10 // blocks 0 .. W-11
@@ -315,7 +393,7 @@ func runOps(w *World, ops []Op, tag string) {
 		w.do(op)
 		if op.Kind == "query" {
 			q := *op.Q
-			want := naive(w.Chain, q.F, q.From, q.To)
+			want := w.want(q)
 			w.Res.Case(fmt.Sprintf("%s/%d/%v", tag, i, q), len(want) > 0 || q.From/W != q.To/W)
 		}
 	}
@@ -377,8 +455,12 @@ func probeVariant(bases *Base, r *lib.RNG) Variant {
 // Random histories
 // ---------------------------------------------------------------------------------------------
 
-func runRandom(bases *Base, r *lib.RNG, id uint64, res *lib.Result, f lib.Flags, pool *DrvPool, v Variant) {
+func runRandom(bases *Base, far *Base, r *lib.RNG, id uint64, res *lib.Result, f lib.Flags, pool *DrvPool, v Variant) {
 	near := r.Chance(2, 3)
+	if near && far != nil && r.Chance(1, 3) {
+		bases, pool = far, far.Pool
+		res.Hit("history:random-near-second-boundary")
+	}
 	newState := r.Bool()
 	prunerInit := r.Bool()
 	name := fmt.Sprintf("random-%d", id)
@@ -439,7 +521,7 @@ func runRandom(bases *Base, r *lib.RNG, id uint64, res *lib.Result, f lib.Flags,
 		w.do(op)
 		if op.Kind == "query" {
 			q := *op.Q
-			want := naive(w.Chain, q.F, q.From, q.To)
+			want := w.want(q)
 			res.Case(fmt.Sprintf("%s/%d", name, i), len(want) > 0 || q.From/W != q.To/W)
 			res.Sample(6, map[string]any{"history": name, "height": len(w.Chain), "query": q, "events": len(want)})
 			if q.From/W != q.To/W {
